@@ -13,6 +13,20 @@ the oracle is independent of the pixel-centre convention and of the (separately 
 Finding classes are one per public entry point (``C12:Grid2D.padded_grid_from`` ...).  An exception raised on
 one side only, or a different exception type on the two sides, is a violation of the same entry-point class.
 
+Translations.  Every entry point of every case meets the four generic translations of ``D_MENU``.  Translations with
+special structure (``SPECIAL_CLASSES``: exactly one zero component - both axes, both signs -, equal components,
+integer multiples of the pixel scales, minus the origin so that the translated origin is exactly (0,0), larger than
+the whole frame) depend on the configuration and are rotated over entry points and cases (``special_plan``): in an S
+case every entry point that does not depend on the masked pixels meets one class, every other entry point meets one
+class in every third case; every M case adds one class, every H case six; T cases run every entry point with every
+class on a few masks per frame.  Census (quick tier): every (entry point, class) pair is met >= 9 times by
+the S cases alone and 20-30 times by the T cases of the quick tier.
+
+The library's own translation mechanism is an entry point of its own: the grid of the BASE origin moved with
+``Grid2D.subtracted_from(offset=-d)`` - and the grids of a fit of the BASE-origin dataset with
+``DatasetModel(grid_offset=-d)`` - must be the base grids moved by d for every d above (mask origin, over sampler,
+padded and blurring grids derived from the moved grid included), also when the move is made in two axis-aligned steps.
+
 Histories inside one structure case (the runner forks a fresh process per chunk, so they cannot span cases):
 
 * the base origin is always evaluated first and the translated origins afterwards, so a process-global memo keyed
@@ -46,7 +60,11 @@ RULE = (
     "cases: S = (frame, free-block bits, pixel-scale pair, base origin): every mask whose unmasked pixels are any "
     "non-empty subset of a 3x3 (thorough: also 4x4) block placed in a list of frames (centred, off-centre in "
     "even/odd frames, frame-touching), each driven through every structure / dataset / index entry point at the "
-    "base origin and at base+d for every d of the translation menu; M = mapper cases (mask subset x sub-size "
+    "base origin and at base+d for every d of the generic translation menu, plus translations with special structure "
+    "(one zero component, equal components, pixel-scale multiples, minus the origin, beyond the frame) rotating over "
+    "entry points and cases; the entry points include the library's own translation mechanism (Grid2D.subtracted_from "
+    "and FitDataset.grids with DatasetModel.grid_offset, offset = -d applied to the structures of the base origin); "
+    "T = every entry point x every special translation class on a few masks per frame; M = mapper cases (mask subset x sub-size "
     "scheme x scale x origin; rectangular meshes of two shapes and a Delaunay mesh on jittered source points in "
     "general position); H = Hilbert image-mesh cases on circular masks (radius x scale x origin).  Every S case also "
     "runs a read-then-derive history on a grid with an over sampler; one (scale, origin) combination of every "
@@ -59,6 +77,17 @@ ASSUMPTIONS = [
     "translation menu d in {(1,0),(0,-2),(1.75,-2.25),(-0.3,1000)} x base origins {(0,0),(0.4,-1.1)} represents "
     "'arbitrary real d': axis-aligned, dyadic two-axis, and non-dyadic/large translations; a forgotten origin "
     "shows for every d != 0 on the affected axis",
+    "translations with special structure are represented by 12 classes (SPECIAL_CLASSES): (0.75,0), (-1.3,0), (0,1.5), "
+    "(0,-0.6); (0.8,0.8), (-1.25,-1.25); (sy,sx), (-2sy,3sx), (3sy,0) for pixel scales (sy,sx); minus the base origin; "
+    "(3H sy+0.37, -(2W sx+0.11)) and (0, 4W sx+0.23) for an HxW frame.  Whether a defect shows for such a d is assumed "
+    "not to depend on the mask pattern beyond what the rotation covers: each (entry point, class) pair is met on >=9 "
+    "(mask-independent entry points) / >=189 (others; >=44 for the fixed-offset fit, which runs on a quarter of the "
+    "masks) S cases and on 20-30 T cases of the quick tier",
+    "Grid2D.subtracted_from(offset) is the translation by -offset (its mask origin moves with it): the moved grid, its "
+    "over sampler and the padded / blurring grids derived from it must equal those of the unmoved grid shifted by "
+    "-offset; FitDataset.grids are the dataset's uniform / non_uniform / pixelization / blurring grids moved by "
+    "-DatasetModel.grid_offset (the border relocator a fit hands on is not a coordinate-valued result of the "
+    "property's list and is not observed)",
     "floating-point ties are excluded by construction: query points >=0.1 pixel from pixel boundaries, radial "
     "centres with a unique longest arm and non-integer arm/pixel ratio, overlay shapes whose overlay centres are "
     "not on pixel boundaries (exact rational test), source-plane points >=1e-6 from rectangular cell edges and "
@@ -72,7 +101,8 @@ ASSUMPTIONS = [
     "SimulatorImaging is run with a fixed noise_seed so simulated values are reproducible",
     "an origin given as a float ndarray of shape (2,) is a legal input of Mask2D / Mask2D.all_false / Array2D.no_mask / "
     "Array2D.full / Grid2D.uniform / Kernel2D.no_mask and must give results identical to the tuple with the same "
-    "values; the library must never modify it in place",
+    "values; the library must never modify it in place; the same holds for the offset of Grid2D.subtracted_from (whose "
+    "signature names np.ndarray)",
     "in-place origin modification, ndarray/tuple differences and stale cached state do not depend on the pixel scale or "
     "base origin, so one (scale, origin) combination per (frame, mask) and one origin of the case (rotating over base "
     "and the four translations) suffice for the ndarray / shared-object pass",
@@ -80,15 +110,21 @@ ASSUMPTIONS = [
 BOUNDS = {
     "quick": "S: all 511 masks of a 3x3 free block x 5 frames (5x5 centred, 6x7 and 7x6 off-centre, 3x3 and 4x5 "
     "frame-touching); on the 5x5 frame all 3 pixel-scale pairs x 2 base origins, on the other frames two of the six "
-    "combinations rotating with the mask (every frame sees every combination); x 4 translations; 36 entry-point "
-    "classes each (the 11 that do not depend on which pixels are masked only on 9 masks per frame/scale/origin); "
+    "combinations rotating with the mask (every frame sees every combination); x 4 translations; 37 entry-point "
+    "classes (42 entry-point functions) each (the 11 that do not depend on which pixels are masked only on 9 masks per frame/scale/origin); "
+    "+ per S case one special-structure translation (12 classes rotating) for every mask-independent entry point and "
+    "for a third of the other 31 entry-point functions; the entry points include subtracted_from / "
+    "FitDataset.grids used as the translation by d of base-origin structures, and (on a quarter of the masks) a "
+    "fixed-offset fit of the dataset of every origin; "
+    "T: 3 masks (1, 5 and 9 unmasked pixels) x 5 frames x 2 (scale, origin) combinations x 12 special classes x every "
+    "entry point; "
     "+ per S case a read-over-sampler-then-derive history (subtracted_from, padded_grid_from); + for one "
     "(scale, origin) combination of each of the 5 x 511 (frame, mask) pairs a read-then-derive mask history "
     "(resized_from, rescaled_from, blurring_from) and one pass of all entry points with ndarray origins on shared "
     "pre-read objects at one of the 5 origins of the case; "
-    "M: 72 masks x 3 sub-size schemes x 2 scales x 2 origins x 4 translations x (2 rectangular + 1 Delaunay mesh); "
-    "H: 3 circular radii x 2 scales x 2 origins x 4 translations",
-    "thorough": "quick plus S on all 65535 masks of a 4x4 free block in 6x6 / 7x6 / 4x4 frames (frame, scale and "
+    "M: 72 masks x 3 sub-size schemes x 2 scales x 2 origins x (4 translations + 1 rotating special class) x (2 rectangular + 1 Delaunay mesh); "
+    "H: 3 circular radii x 2 scales x 2 origins x (4 translations + 6 rotating special classes; every class six times)",
+    "thorough": "quick plus T on 72 masks x 5 frames x 2 combinations, S on all 65535 masks of a 4x4 free block in 6x6 / 7x6 / 4x4 frames (frame, scale and "
     "origin rotating with the mask), M on all 511 masks, H on 4 radii x 2 pixel counts",
 }
 
@@ -102,6 +138,38 @@ FRAMES = FRAMES3 + FRAMES4
 HILBERT_R = [(7, 2.1), (9, 3.3), (7, 1.2), (11, 4.3)]  # (frame side, radius in pixels)
 HILBERT_PS = [1.0, 0.5]
 Q = 2.0 ** -20
+
+# Translations with special structure.  They depend on the configuration (pixel scales, base origin, frame), so the
+# menu is a function; the ORDER is fixed (the rotation below indexes it).
+SPECIAL_CLASSES = [
+    "axis+y", "axis-y", "axis+x", "axis-x",  # exactly one zero component: both axes, both signs
+    "equal+", "equal-",  # both components equal
+    "pixels(1,1)", "pixels(-2,3)", "pixels(3,0)",  # integer multiples of the pixel scales (one of them axis-aligned)
+    "minus-origin",  # the translated origin is exactly (0.0, 0.0); for the base origin (0,0) this is d = (0,0)
+    "beyond-extent", "beyond-extent-axis",  # larger than the whole frame (generic / axis-aligned)
+]
+NSPECIAL = len(SPECIAL_CLASSES)
+S_STRIDE = 3  # quick S cases: a mask-level entry point meets one special translation in every third case
+H_SPECIALS = 6  # special translations per Hilbert case (an evaluation costs ~0.1 s)
+
+
+def special_translations(ps, o, H, W):
+    """The special-structure translation menu of one configuration, in the order of SPECIAL_CLASSES."""
+    ps, o = _t(ps), _t(o)
+    return [
+        (0.75, 0.0),
+        (-1.3, 0.0),
+        (0.0, 1.5),
+        (0.0, -0.6),
+        (0.8, 0.8),
+        (-1.25, -1.25),
+        (ps[0], ps[1]),
+        (-2.0 * ps[0], 3.0 * ps[1]),
+        (3.0 * ps[0], 0.0),
+        (0.0 - o[0], 0.0 - o[1]),
+        (3.0 * H * ps[0] + 0.37, -(2.0 * W * ps[1] + 0.11)),
+        (0.0, 4.0 * W * ps[1] + 0.23),
+    ]
 
 
 # ----------------------------------------------------------------------------------------------- cases
@@ -139,6 +207,14 @@ def cases(tier, seed):
             for oi in range(len(O_MENU)):
                 for px in ((8,) if tier == "quick" else (8, 13)):
                     heavy.append(["H", ri, pi, oi, px, seed])
+    # T: every entry point x every translation with special structure on a few (thorough: 72) masks per frame
+    tbits = (1, 186, 511) if tier == "quick" else _mapper_bits("quick")
+    sweeps = []
+    for fi in range(len(FRAMES3)):
+        for bits in tbits:
+            for si, oi in sorted({((bits + fi) % 3, bits % 2), ((bits + fi + 1) % 3, (bits + 1) % 2)}):
+                sweeps.append(["T", fi, bits, si, oi, seed])
+    mcases = _interleave(mcases, sweeps, [])
     if tier == "thorough":
         k = 0
         for bits in range(1, 2 ** 16):
@@ -387,6 +463,12 @@ class Ctx:
         self.offset = (float(np.round(rg.uniform(-1, 1), 2)), float(np.round(rg.uniform(-1, 1), 2)))
         if self.offset[0] == 0.0 or self.offset[1] == 0.0:  # the offset must move both axes
             self.offset = (0.37, -0.61)
+        # the translation currently applied to the base origin (run_S keeps `origin == add(self.o, self.d)` for every
+        # evaluation): the entry points that translate through the library's own mechanism (Grid2D.subtracted_from,
+        # DatasetModel.grid_offset) move the structures of the BASE origin by exactly this d
+        self.d = (0.0, 0.0)
+        self.fi, self.bits = fi, bits
+        self.cache = {}
 
 
 class _Mode:
@@ -571,6 +653,29 @@ def s_entry_points(aa):
         g = gr(cx, o)
         ob.grid("subtracted", g.subtracted_from(offset=cx.offset))
 
+    @ep("Grid2D.subtracted_from", key="Grid2D.subtracted_from[as-translation]")
+    def _(ob, cx, o):
+        # the library's own translation mechanism: the grid of the BASE origin moved by d = -offset must be the grid
+        # of the origin base+d, and so must everything derived from the moved grid.  (At the base origin d = (0,0).)
+        if MODE.shared is None:
+            parent = aa.Grid2D.from_mask(mask=mk(cx, cx.o), over_sampling=aa.OverSamplingUniform(sub_size=2))
+        else:
+            parent = gr(cx, cx.o)
+        moved = parent.subtracted_from(offset=org((-cx.d[0], -cx.d[1])))
+        ob.grid("moved", moved)
+        ob.coord("moved.origin", moved.origin)
+        ob.extent("moved.geometry.extent", moved.geometry.extent)
+        osr = moved.over_sampler
+        ob.same("moved.over_sampler.mask", np.array(osr.mask))
+        ob.coord("moved.over_sampler.mask.origin", osr.mask.origin)
+        ob.coord("moved.over_sampler.over_sampled_grid", np.array(osr.over_sampled_grid))
+        ob.same("moved.over_sampler.slim_for_sub_slim", np.array(osr.slim_for_sub_slim))
+        ob.grid("moved.padded_grid_from", moved.padded_grid_from(kernel_shape_native=(3, 3)))
+        ob.sub("moved.blurring", lambda: ob.grid("moved.blurring", moved.blurring_grid_via_kernel_shape_from(kernel_shape_native=(3, 3))))
+        # twice: moving by d in two steps (first along y, then along x) is moving by d
+        two = parent.subtracted_from(offset=org((-cx.d[0], 0.0))).subtracted_from(offset=org((0.0, -cx.d[1])))
+        ob.grid("moved-in-two-axis-steps", two)
+
     @ep("structure-constructors(origin=)", frame=True)
     def _(ob, cx, o):
         ob.grid("uniform", aa.Grid2D.uniform(shape_native=cx.m.shape, pixel_scales=cx.ps, origin=org(o)))
@@ -740,6 +845,46 @@ def s_entry_points(aa):
         padded = aa.Imaging(data=arr(cx, o), noise_map=arr(cx, o, cx.noise), psf=aa.Kernel2D.no_mask(values=cx.kernel.copy(), pixel_scales=cx.ps), pad_for_convolver=True)
         dataset(ob, padded)
 
+    class _Fit(aa.FitImaging):
+        @property
+        def model_data(self):
+            return self.dataset.data
+
+    def fit_dataset(cx, o):
+        def build():
+            osd = aa.OverSamplingDataset(
+                uniform=aa.OverSamplingUniform(sub_size=2),
+                non_uniform=aa.OverSamplingUniform(sub_size=1),
+                pixelization=aa.OverSamplingUniform(sub_size=3),
+            )
+            return imaging(cx, o).apply_mask(mask=mk(cx, o)).apply_over_sampling(over_sampling=osd)
+
+        if MODE.shared is not None or o != cx.o:
+            return build()
+        # one dataset at the base origin is fitted with every grid offset of the case (the way an offset is
+        # marginalised over); the fits must not influence one another through it
+        if "fit-dataset" not in cx.cache:
+            cx.cache["fit-dataset"] = build()
+        return cx.cache["fit-dataset"]
+
+    def fit_grids(ob, tag, ds, offset):
+        gs = _Fit(dataset=ds, dataset_model=aa.DatasetModel(grid_offset=offset)).grids
+        for nm in ("uniform", "non_uniform", "pixelization", "blurring"):
+            ob.sub(tag + nm, lambda nm=nm: ob.grid(tag + nm, getattr(gs, nm)))
+        ob.sub(tag + "uniform.over_sampler", lambda: ob.coord(tag + "uniform.over_sampler.over_sampled_grid", np.array(gs.uniform.over_sampler.over_sampled_grid)))
+        ob.sub(tag + "pixelization.over_sampler", lambda: ob.coord(tag + "pixelization.over_sampler.mask.origin", gs.pixelization.over_sampler.mask.origin))
+
+    @ep("FitDataset.grids(DatasetModel.grid_offset)")
+    def _(ob, cx, o):
+        # the grids a fit works on: those of the dataset moved by -grid_offset.  The dataset of the BASE origin with
+        # grid_offset = -d must give the grids of the origin base+d.
+        fit_grids(ob, "moved-by-grid_offset:", fit_dataset(cx, cx.o), (-cx.d[0], -cx.d[1]))
+
+    @ep("FitDataset.grids(DatasetModel.grid_offset)", key="FitDataset.grids(DatasetModel.grid_offset)[fixed-offset]")
+    def _(ob, cx, o):
+        # a fixed offset on the dataset of the translated origin
+        fit_grids(ob, "fixed-grid_offset:", fit_dataset(cx, o), cx.offset)
+
     @ep("SimulatorImaging.via_image_from", frame=True)
     def _(ob, cx, o):
         image = aa.Array2D.no_mask(values=cx.values.copy(), pixel_scales=cx.ps, origin=org(o))
@@ -812,6 +957,11 @@ def _eps(aa):
     if "S" not in _EP_CACHE:
         _EP_CACHE["S"] = s_entry_points(aa)
     return _EP_CACHE["S"]
+
+
+# entry-point functions that run on a fraction of the S cases only: key -> n, meaning the cases with (bits + fi) % n == 0
+# (every T case runs them).  The fixed-offset fit builds one more masked, over-sampled dataset per origin.
+SPARSE = {"FitDataset.grids(DatasetModel.grid_offset)[fixed-offset]": 4}
 
 
 def frame_level_bits(bits):
@@ -939,31 +1089,68 @@ def nd_pass(v, cx, E, o3, ref):
         MODE.set()
 
 
-def run_S(aa, v0, case):
+def special_plan(keys, E, fi, bits, si, oi, sweep=False):
+    """Which (entry point, special translation class) pairs a case runs.
+
+    sweep : every entry point x every class.
+    else  : entry point number k of the (fixed) entry point list meets class ((k + rot) // stride) % NSPECIAL iff
+            (k + rot) % stride == 0, where rot is a deterministic function of the case; stride is 1 for the entry points
+            that do not depend on the masked pixels (they run on few masks) and S_STRIDE for the others.  Over the
+            cases every entry point meets every class (see the census in the module docstring)."""
+    rot = 7 * bits + 5 * fi + 3 * si + oi + bits // 64
+    out = []
+    for k, key in enumerate(keys):
+        if key not in E:
+            continue
+        if sweep:
+            out.extend((key, j) for j in range(NSPECIAL))
+            continue
+        stride = 1 if E[key][1] else S_STRIDE
+        if (k + rot) % stride == 0:
+            out.append((key, ((k + rot) // stride) % NSPECIAL))
+    return out
+
+
+def run_S(aa, v0, case, sweep=False):
     _, fi, bits, si, oi, seed = case
     cx = Ctx(fi, bits, si, oi, seed)
     frame_level = frame_level_bits(bits)
-    E = {k: e for k, e in _eps(aa).items() if frame_level or not e[1]}
+    E = {k: e for k, e in _eps(aa).items() if (frame_level or not e[1]) and (sweep or (bits + fi) % SPARSE.get(k, 1) == 0)}
     o = cx.o
     v = Once(v0)
     MODE.set()
+    cx.d = (0.0, 0.0)
     base = {k: run_entry(fn, cx, o) for k, (_, _, fn) in E.items()}
     raised = sorted(n for n, r in base.items() if isinstance(r, str))
     trans = []
     for d in D_MENU:
         tol = 1e-9 * (1.0 + max(abs(d[0]), abs(d[1])) + max(abs(o[0]), abs(o[1])))
         o2 = add(o, d)
+        cx.d = d
         res = {}
         for k, (finding, _, fn) in E.items():
             res[k] = run_entry(fn, cx, o2)
             compare(v, finding, base[k], res[k], d, tol)
         trans.append(res)
+    # translations with special structure, rotating over entry points and cases (every d of the menu: sweep=True)
+    special = special_translations(cx.ps, o, cx.H, cx.W)
+    for k, j in special_plan(list(_eps(aa).keys()), E, fi, bits, si, oi, sweep):
+        d = special[j]
+        tol = 1e-9 * (1.0 + max(abs(d[0]), abs(d[1])) + max(abs(o[0]), abs(o[1])))
+        cx.d = d
+        finding, _, fn = E[k]
+        compare(v, finding, base[k], run_entry(fn, cx, add(o, d)), d, tol)
+    if sweep:
+        v0.nontrivial = True
+        v0.outcome = "T:frame%dx%d:n%d:raises=%s" % (cx.H, cx.W, int((~cx.m).sum()), ",".join(raised) or "-")
+        return
     history_grid(aa, v, cx, o)
     nd = nd_selected(fi, bits, si, oi)
     if nd:
         history_mask(aa, v, cx, o)
         j = (bits + fi) % (len(D_MENU) + 1)
-        nd_pass(v, cx, E, o if j == 0 else add(o, D_MENU[j - 1]), base if j == 0 else trans[j - 1])
+        cx.d = (0.0, 0.0) if j == 0 else D_MENU[j - 1]
+        nd_pass(v, cx, E, add(o, cx.d) if j else o, base if j == 0 else trans[j - 1])
     v = v0
     u = ~cx.m
     n = int(u.sum())
@@ -1157,6 +1344,10 @@ def observe_mappers(aa, m, subs, src_rel, pts_rel, ps, o):
     return out
 
 
+def m_special(bits, sub, si, oi):
+    return (bits // 8 + 5 * sub + 2 * si + oi) % NSPECIAL
+
+
 def run_M(aa, v, case):
     _, fi, bits, sub, si, oi, seed = case
     ps, o = PS_MENU[si], O_MENU[oi]
@@ -1168,6 +1359,13 @@ def run_M(aa, v, case):
         other = observe_mappers(aa, m, subs, src, pts, ps, add(o, d))
         for name in base:
             compare(v, name.split("[")[0], base[name], other[name], d, tol)
+    # one translation with special structure, rotating with the case
+    H, W = m.shape
+    d = special_translations(ps, o, H, W)[m_special(bits, sub, si, oi)]
+    tol = 1e-9 * (1.0 + max(abs(d[0]), abs(d[1])) + max(abs(o[0]), abs(o[1])))
+    other = observe_mappers(aa, m, subs, src, pts, ps, add(o, d))
+    for name in base:
+        compare(v, name.split("[")[0], base[name], other[name], d, tol)
     v = v0
     v.nontrivial = True
     v.outcome = "M:sub%d:n%d:%s" % (sub, int((~m).sum()), ",".join(sorted(k for k, r in base.items() if isinstance(r, str))) or "-")
@@ -1197,6 +1395,12 @@ def observe_hilbert(aa, side, rpix, ps, o, pixels, g, h):
     return run_entry(f)
 
 
+def h_specials(ri, pi, oi, pixels):
+    """H_SPECIALS consecutive classes per case; the 12 quick cases cover every class H_SPECIALS times."""
+    idx = ri * 4 + pi * 2 + oi + (0 if pixels == 8 else 2)
+    return [(H_SPECIALS * idx + t) % NSPECIAL for t in range(H_SPECIALS)]
+
+
 def run_H(aa, v, case):
     _, ri, pi, oi, pixels, seed = case
     side, rpix = HILBERT_R[ri]
@@ -1209,6 +1413,11 @@ def run_H(aa, v, case):
     base = observe_hilbert(aa, side, rpix, ps, o, pixels, g, h)
     v0, v = v, Once(v)
     for d in D_MENU:
+        tol = 1e-9 * (1.0 + max(abs(d[0]), abs(d[1])) + max(abs(o[0]), abs(o[1])))
+        compare(v, "image_mesh.Hilbert", base, observe_hilbert(aa, side, rpix, ps, add(o, d), pixels, g, h), d, tol)
+    special = special_translations((ps, ps), o, side, side)
+    for j in h_specials(ri, pi, oi, pixels):
+        d = special[j]
         tol = 1e-9 * (1.0 + max(abs(d[0]), abs(d[1])) + max(abs(o[0]), abs(o[1])))
         compare(v, "image_mesh.Hilbert", base, observe_hilbert(aa, side, rpix, ps, add(o, d), pixels, g, h), d, tol)
     v = v0
@@ -1226,6 +1435,8 @@ def run_case(case):
     kind = case[0]
     if kind == "S":
         run_S(aa, v, case)
+    elif kind == "T":
+        run_S(aa, v, case, sweep=True)
     elif kind == "M":
         run_M(aa, v, case)
     elif kind == "H":
